@@ -49,6 +49,16 @@ var pinnedCases = []pinnedCase{
 	{"C20", "loader-return-value-wins-over-stored-value", `package.preload.m = function(n) package.loaded[n] = "set" return "returned" end return require "m", package.loaded.m`, "returned|returned", nil},
 	{"C20", "replaced-package.loaders-is-searched", `package.loaders = {function(n) return function() return "custom:" .. n end end} return require "zzz"`, "custom:zzz", nil},
 	{"C20", "package.loaders-must-be-a-table", `package.loaders = 5 return pcall(require, "zzz")`, "false", nil},
+	// re-entrancy: a library function whose callback runs the same library function again (each case
+	// twice in one chunk: scratch state left by the first round must not leak into the second)
+	{"C14", "reentrant/gsub-function-inside-gsub-function", `local function up(w) return (w:gsub("%a", function(c) return c:upper() end)) end local function run() return (("ab cd ef"):gsub("%a+", function(w) return "<" .. up(w) .. ">" end)) end local a = run() local b = run() return a, b, (("x y z w"):gsub("%a", function(c) return (c .. c):gsub("%a", function(d) return d:upper() end) end))`, "<AB> <CD> <EF>|<AB> <CD> <EF>|XX YY ZZ WW", nil},
+	{"C14", "reentrant/gmatch-inside-gsub-function", `local function count(w) local n = 0 for _ in w:gmatch("%a") do n = n + 1 end return n end local function run() return (("ab cde f"):gsub("%a+", function(w) return count(w) end)) end return run(), run()`, "2 3 1|2 3 1", nil},
+	{"C14", "reentrant/gsub-table-and-find-inside-gsub-function", `local function run() return (("a1 b22 c333"):gsub("%a%d+", function(w) local s, e = w:find("%d+") return w:sub(1, 1) .. (w:sub(s, e):gsub("%d", {["1"] = "x", ["2"] = "y", ["3"] = "z"})) end)) end return run(), run()`, "ax byy czzz|ax byy czzz", nil},
+	{"C18", "reentrant/sort-inside-comparator", `local function key(row) local c = {} for i, v in ipairs(row) do c[i] = v end table.sort(c) return table.concat(c, ",") end local function run() local rows = {{3, 1, 2}, {9, 8}, {2, 1}, {5}, {4, 6, 1}, {7, 0}, {3, 3}, {1}} table.sort(rows, function(a, b) return key(a) < key(b) end) local out = {} for i, r in ipairs(rows) do out[i] = table.concat(r, "") end return table.concat(out, " ") end return run(), run()`, "70 1 21 312 461 33 5 98|70 1 21 312 461 33 5 98", nil},
+	{"C18", "reentrant/sort-inside-comparator-with-own-comparator", `local function run() local rows = {{1, 3, 2}, {2, 9}, {5, 4, 6}, {0, 8}, {7}, {1, 1}, {4, 2}, {2}, {5}} table.sort(rows, function(a, b) table.sort(a, function(x, y) return x > y end) table.sort(b, function(x, y) return x > y end) return a[1] < b[1] end) local out = {} for i, r in ipairs(rows) do out[i] = table.concat(r, "") end return table.concat(out, " ") end return run(), run()`, "11 2 321 42 5 654 7 80 92|11 2 321 42 5 654 7 80 92", nil},
+	// C04: the string metatable's __index replaced after the library was opened: method calls follow it
+	{"C04", "replaced-string-index-table", `local smt = getmetatable("") local old = smt.__index smt.__index = {upper = function(s) return "custom:" .. s end, extra = function(s) return "extra:" .. s end} local a, b, c = ("x"):upper(), ("x").upper("y"), ("x"):extra() local d = pcall(function() return ("x"):lower() end) smt.__index = old return a, b, c, d, ("x"):upper()`, "custom:x|custom:y|extra:x|false|X", nil},
+	{"C04", "replaced-string-index-function", `local smt = getmetatable("") local old = smt.__index smt.__index = function(s, k) return function(self, ...) return k .. "(" .. self .. ")" end end local a, b = ("x"):upper(), ("x"):anything() smt.__index = old return a, b, ("x"):upper()`, "upper(x)|anything(x)|X", nil},
 	// C19 (file cases use the placeholder $F for a scratch file that holds 0123456789)
 	{"C19", "io.output-truncates", `io.output("$F") io.write("ab") io.close() local f = io.open("$F") local s = f:read("*a") f:close() return s`, "ab", nil},
 	{"C19", "io.lines-missing-file-raises", `return pcall(io.lines, "$F.does-not-exist")`, "false", nil},
